@@ -131,6 +131,26 @@ pub fn derive(r: &mut Rng, c: &DocCfg, v: &Value<'static>) -> Value<'static> {
     }
 }
 
+/// an object member (at any depth) that holds a non-empty array replaced by one element of that array:
+/// containment's "array contains a bare scalar" rule applies at the top level only
+pub fn unwrap_member(r: &mut Rng, v: &Value<'static>) -> Option<Value<'static>> {
+    match v {
+        Value::Object(o) => {
+            let cands: Vec<&String> = o.iter().filter(|(_, x)| matches!(x, Value::Array(a) if !a.is_empty())).map(|(k, _)| k).collect();
+            if !cands.is_empty() && r.chance(2, 3) {
+                let k = (*r.pick(cands.as_slice())).clone();
+                let mut o2 = o.clone();
+                if let Some(Value::Array(a)) = o.get(&k) { let e = a[r.below(a.len() as u64) as usize].clone(); o2.insert(k, e); }
+                return Some(Value::Object(o2));
+            }
+            for (k, x) in o.iter() { if let Some(y) = unwrap_member(r, x) { let mut o2 = o.clone(); o2.insert(k.clone(), y); return Some(Value::Object(o2)); } }
+            None
+        }
+        Value::Array(a) => { for (i, x) in a.iter().enumerate() { if let Some(y) = unwrap_member(r, x) { let mut a2 = a.clone(); a2[i] = y; return Some(Value::Array(a2)); } } None }
+        _ => None,
+    }
+}
+
 pub fn retype(r: &mut Rng, n: &Number) -> Number {
     match n {
         Number::UInt64(0) | Number::Int64(0) => if r.chance(1, 2) { Number::Float64(-0.0) } else { Number::Float64(0.0) },
@@ -686,6 +706,24 @@ pub fn gen_sub(prop: &str, tier: &str, seed: u64) -> Out {
                         _ => { o.push(format!("keyorder {} {}", ha, hb)); }
                     }
                 } }
+            }
+            // object members holding arrays against the same object with one element in the member's place,
+            // in every representation (the bare-scalar rule must not fire below the top level)
+            if prop == "C12" {
+                for _ in 0..scale(tier, 250, 6000) {
+                    let a0 = gen_value(&mut r, &c, 0);
+                    let a = if matches!(a0, Value::Object(_)) && r.chance(1, 2) { a0 } else { let mut m = std::collections::BTreeMap::new(); m.insert(gen_key(&mut r), Value::Array((0..1 + r.below(3)).map(|_| gen_scalar(&mut r, &c)).collect())); if r.chance(1, 2) { m.insert(gen_key(&mut r), a0); } Value::Object(m) };
+                    let b = match unwrap_member(&mut r, &a) { Some(b) => b, None => continue };
+                    if crate::gen_text::has_nan(&a) || crate::gen_text::has_nan(&b) { continue; }
+                    let (ha, hb) = (hex(&a.to_vec()), hex(&b.to_vec()));
+                    o.push(format!("spec:contains {} {}", ha, hb)); o.push(format!("contains {} {}", ha, hb));
+                    let mut ta = String::new(); let mut tb = String::new();
+                    crate::gen_text::render_json(&mut r, &a, crate::gen_text::Style::Strict, &mut ta);
+                    crate::gen_text::render_json(&mut r, &b, crate::gen_text::Style::Strict, &mut tb);
+                    let (ta, tb) = (hex(ta.trim_start_matches(' ').as_bytes()), hex(tb.trim_start_matches(' ').as_bytes()));
+                    o.push(format!("t:contains {} {}", ta, tb)); o.push(format!("t:contains {} {}", ta, hb)); o.push(format!("t:contains {} {}", ha, tb));
+                    o.push(format!("tj {} contains {} {}", r.next() % 1000000, ha, hb));
+                }
             }
             for _ in 0..scale(tier, 700, 20000) {
                 let a = gen_value(&mut r, &c, 0);
